@@ -1,8 +1,309 @@
+/-
+Driver mode c03 (DESIGN.md section 6, C03): route validity of libavoid connectors.
+Per case (one scene, one processTransaction):
+ * every connector's `route()` and `displayRoute()`: ≥ 2 points, first = src, last = dst (exact),
+   no leg enters a real shape (not containing an endpoint) deeper than 1e-6  — `Check.Route.routeValid`,
+   proved sound in Props/C03.  A violated route is a SPECFAIL only if an obstacle-free path exists,
+   which the driver establishes by exhibiting one in the spec visibility graph of the routing
+   polygons (corners + endpoints, edge iff `¬segHitsInterior`; every edge of the exhibited path is
+   checked with the proven checker).
+ * every dumped polyline visibility edge must be spec-unblocked w.r.t. the routing polygons (SPECFAIL);
+   every orthogonal visibility edge axis-parallel and spec-unblocked (SPECFAIL / DIVERGE).
+ * `UseLeesAlgorithm = false`, exactly representable scenes: dumped edge set = `Model.Visibility.visible`
+   on all candidate pairs (DIVERGE).
+-/
 import Driver.Proto
+import AdaptaVerif.Check.Route
+import AdaptaVerif.Model.Visibility
 namespace Driver.C03
+open Driver AdaptaVerif.Num
+open AdaptaVerif.Model.Geometry (Pt area2)
+open AdaptaVerif.Check.Route
+open AdaptaVerif.Model.Visibility
 
-def run (_args : List String) : IO UInt32 := do
-  IO.eprintln "driver mode c03: not implemented yet"
-  return 2
+def tolShrink : Rat := 1 / 1000000
+
+structure Conn where
+  id : Nat
+  src : Pt
+  dst : Pt
+  orth : Bool
+  deriving Inhabited
+
+structure VisEdge where
+  o1 : Nat
+  v1 : Nat
+  c1 : Bool
+  p1 : Pt
+  o2 : Nat
+  v2 : Nat
+  c2 : Bool
+  p2 : Pt
+  deriving Inhabited
+
+def ptsOf (v : Array Rat) : List Pt :=
+  (List.range (v.size / 2)).map fun i => ⟨v[2*i]!, v[2*i+1]!⟩
+
+/-- lines `<kw> <id> <n> x y …` → (id, points) -/
+def parsePolys (c : Case) (kw : String) : Option (List (Nat × List Pt)) :=
+  (c.get kw).toList.mapM fun l => do
+    let v ← nums? (l.extract 2 l.size)
+    if v.size != 2 * nat! l[1]! then none
+    pure (nat! l[0]!, ptsOf v)
+
+def parseConns (c : Case) : Option (List Conn) :=
+  (c.get "conn").toList.mapM fun l => do
+    let v ← nums? (l.extract 1 5)
+    pure { id := nat! l[0]!, src := ⟨v[0]!, v[1]!⟩, dst := ⟨v[2]!, v[3]!⟩, orth := l[5]! == "orth" }
+
+def parseVis (c : Case) : Option (List VisEdge) :=
+  (c.get "vis").toList.mapM fun l => do
+    let a ← nums? (l.extract 3 5)
+    let b ← nums? (l.extract 8 10)
+    pure { o1 := nat! l[0]!, v1 := nat! l[1]!, c1 := l[2]! == "1", p1 := ⟨a[0]!, a[1]!⟩,
+           o2 := nat! l[5]!, v2 := nat! l[6]!, c2 := l[7]! == "1", p2 := ⟨b[0]!, b[1]!⟩ }
+
+def parseOvis (c : Case) : Option (List (Pt × Pt)) :=
+  (c.get "ovis").toList.mapM fun l => do
+    let v ← nums? l
+    pure (⟨v[0]!, v[1]!⟩, ⟨v[2]!, v[3]!⟩)
+
+def cfgFlag (c : Case) (name : String) : Bool :=
+  match c.get1 "cfg" with
+  | some l => Id.run do
+    for i in [0:l.size] do
+      if l[i]! == name then return l[i+1]! == "1"
+    return false
+  | none => false
+
+def ptStr (p : Pt) : String := s!"({ratToString p.x},{ratToString p.y})"
+
+/-- v lies on the closed segment pq -/
+def onClosedSeg (p q v : Pt) : Bool :=
+  area2 p q v == 0 && rmin p.x q.x ≤ v.x && v.x ≤ rmax p.x q.x && rmin p.y q.y ≤ v.y && v.y ≤ rmax p.y q.y
+
+/-- number of vertices of `poly` in the open segment pq -/
+def cornersInOpenSeg (poly : Poly) (p q : Pt) : Nat :=
+  (poly.filter fun v => onClosedSeg p q v && v != p && v != q).length
+
+/-- v lies on the boundary of poly -/
+def onBoundary (poly : Poly) (v : Pt) : Bool := (polyEdges poly).any fun e => onClosedSeg e.1 e.2 v
+
+/-- Classification of an interior hit (message only).
+    collinear-vertex: a vertex of the crossed shape lies in the open segment (the orientation tests of
+      `segmentIntersect` are 0 there, so neither adjacent edge reports a crossing);
+    touch-touch: both segment ends lie on the boundary of the crossed shape (each end is an "endpoint
+      touch", no proper crossing anywhere);
+    other: anything else. -/
+def hitClass (shapes : List Poly) (i : Nat) (p q : Pt) : String :=
+  let poly := shapes.getD i []
+  if cornersInOpenSeg poly p q ≥ 1 then "class=collinear-vertex"
+  else if onBoundary poly p && onBoundary poly q then "class=touch-touch"
+  else "class=other"
+
+/-- axis-aligned bounding box (xmin, ymin, xmax, ymax) -/
+def bbox (poly : Poly) : Rat × Rat × Rat × Rat :=
+  match poly with
+  | [] => (0, 0, 0, 0)
+  | v :: vs => vs.foldl (fun (a, b, c, d) w => (rmin a w.x, rmin b w.y, rmax c w.x, rmax d w.y)) (v.x, v.y, v.x, v.y)
+
+/-- Unverified prefilter: can the segment reach the open bounding box of the shape at all?  It is only
+    used to skip shapes when *searching* for hits (completeness of the search); every reported hit is
+    confirmed by the proven `segHitsInteriorTol`, and path certificates use the proven `routeValid`. -/
+def mayTouch (bb : Rat × Rat × Rat × Rat) (p q : Pt) : Bool :=
+  let (x0, y0, x1, y1) := bb
+  !((p.x ≤ x0 && q.x ≤ x0) || (x1 ≤ p.x && x1 ≤ q.x) || (p.y ≤ y0 && q.y ≤ y0) || (y1 ≤ p.y && y1 ≤ q.y))
+
+/-- first shape (index not in excl) hit by the leg, bounding-box prefiltered -/
+def firstHitBB (tol : Rat) (excl : List Nat) (shapes : Array (Poly × (Rat × Rat × Rat × Rat))) (l : Pt × Pt) : Option Nat := Id.run do
+  for i in [0:shapes.size] do
+    let (poly, bb) := shapes[i]!
+    if mayTouch bb l.1 l.2 && !excl.contains i && segHitsInteriorTol tol poly l.1 l.2 then return some i
+  return none
+
+def smallDyadic (r : Rat) : Bool := 64 % r.den == 0
+
+/-- is the segment unblocked (margin tol) by all shapes not in excl (prefiltered search) -/
+def unblocked (tol : Rat) (shapes : Array (Poly × (Rat × Rat × Rat × Rat))) (excl : List Nat) (p q : Pt) : Bool :=
+  (firstHitBB tol excl shapes (p, q)).isNone
+
+/-- Search for an obstacle-free path src → dst in the spec visibility graph (vertices: corners of
+    `shapes` + the two endpoints).  Depth-first, neighbours tried nearest-to-target first, edges
+    tested lazily with the exact checker.  Returns the path if found. -/
+partial def findPath (shapes : Array (Poly × (Rat × Rat × Rat × Rat))) (excl : List Nat) (src dst : Pt) : Option (List Pt) := Id.run do
+  let verts : Array Pt := (shapes.foldl (fun acc s => acc ++ s.1) []).toArray
+  let d2 (p : Pt) : Rat := (p.x - dst.x) * (p.x - dst.x) + (p.y - dst.y) * (p.y - dst.y)
+  let order := (List.range verts.size).toArray.qsort (fun i j => d2 verts[i]! < d2 verts[j]!)
+  let mut visited : Array Bool := Array.replicate verts.size false
+  -- stack of (point, path so far reversed)
+  let mut stack : List (Pt × List Pt) := [(src, [src])]
+  let mut fuel := 4 * verts.size + 8
+  while fuel > 0 do
+    fuel := fuel - 1
+    match stack with
+    | [] => return none
+    | (u, path) :: rest =>
+      stack := rest
+      if unblocked 0 shapes excl u dst then return some (dst :: path).reverse
+      -- push in reverse order so that the nearest is expanded first
+      let mut nbrs : List (Pt × List Pt) := []
+      for i in order do
+        if !visited[i]! then
+          let v := verts[i]!
+          if unblocked 0 shapes excl u v then
+            visited := visited.set! i true
+            nbrs := (v, v :: path) :: nbrs
+      stack := nbrs.reverse ++ stack
+  return none
+
+/-- failures found in a case; the one with the smallest priority number is reported
+    (route-level before mechanism-level, unclassified before classified) -/
+structure Fail where
+  prio : Nat
+  verdict : Verdict
+
+def worst (fs : List Fail) : Option Fail :=
+  fs.foldl (fun acc f => match acc with
+    | none => some f
+    | some g => if f.prio < g.prio then some f else some g) none
+
+def classPrio (cls : String) : Nat := if cls == "class=other" then 0 else 1
+
+def run1 (c : Case) : CaseResult := Id.run do
+  if c.tag == "empty" then return { verdict := .ok, nontrivial := false }
+  let some shapesI := parsePolys c "shape" | return { verdict := .diverge "unparsable shape" }
+  let some rpolysI := parsePolys c "rpoly" | return { verdict := .diverge "unparsable rpoly" }
+  let some routes := parsePolys c "route" | return { verdict := .diverge "unparsable route (non-finite coordinate?)" }
+  let some displays := parsePolys c "display" | return { verdict := .diverge "unparsable display route (non-finite coordinate?)" }
+  let some conns := parseConns c | return { verdict := .diverge "unparsable conn" }
+  let some vis := parseVis c | return { verdict := .diverge "unparsable vis" }
+  let some ovis := parseOvis c | return { verdict := .diverge "unparsable ovis" }
+  let shapes : List Poly := shapesI.map (·.2)
+  let rpolys : List Poly := rpolysI.map (·.2)
+  if rpolys.length != shapes.length then return { verdict := .diverge "rpoly count ≠ shape count" }
+  let shapesBB := (shapes.map fun p => (p, bbox p)).toArray
+  let rpolysBB := (rpolys.map fun p => (p, bbox p)).toArray
+  let lee := cfgFlag c "lee"
+  let lk := if lee then "lee" else "naive"
+  let allowPoly := cfgFlag c "poly"
+  let ignoreRegions := cfgFlag c "ignoreRegions"
+  let mut stats : List (String × Nat) := [("shapes", shapes.length), ("conns", conns.length), ("visEdges", vis.length), ("ovisEdges", ovis.length)]
+  let mut nontrivial := false
+  let mut fails : List Fail := []
+  -- ---------------------------------------------------------------- routes (the property itself)
+  for cn in conns do
+    let excl := containing shapes cn.src ++ containing shapes cn.dst
+    if !excl.isEmpty then stats := bumpStats stats "conn.endpointInsideShape" 1
+    let ck := if cn.orth then "orth" else "poly"
+    for (kind, table) in [("route", routes), ("display", displays)] do
+      let some (_, rt) := table.find? (·.1 == cn.id)
+        | fails := ⟨0, .specfail s!"conn {cn.id}: no {kind} dumped"⟩ :: fails
+      if rt.length < 2 then
+        fails := ⟨0, .specfail s!"too-short conn {cn.id} {kind} ({ck}): fewer than 2 points ({rt.length})"⟩ :: fails
+        continue
+      if rt.head? != some cn.src then
+        fails := ⟨2, .specfail s!"endpoint-moved conn {cn.id} {kind} ({ck}): starts at {ptStr (rt.headD ⟨0,0⟩)} not at source {ptStr cn.src}"⟩ :: fails
+      if rt.getLast? != some cn.dst then
+        fails := ⟨2, .specfail s!"endpoint-moved conn {cn.id} {kind} ({ck}): ends at {ptStr (rt.getLastD ⟨0,0⟩)} not at destination {ptStr cn.dst}"⟩ :: fails
+      if rt.length > 2 then nontrivial := true
+      stats := bumpStats stats s!"{kind}.len{min rt.length 6}" 1
+      if cn.orth && !routeOrthogonal rt then stats := bumpStats stats s!"{kind}.orthNotAxisParallel" 1
+      -- obstacle check: search with the prefilter, confirm with the proven checker
+      let mut hit : Option (Nat × Pt × Pt) := none
+      for l in legs rt do
+        if hit.isNone then
+          match firstHitBB tolShrink excl shapesBB l with
+          | some i => hit := some (i, l.1, l.2)
+          | none => pure ()
+      match hit with
+      | none => pure ()
+      | some (i, a, b) =>
+        if routeValid shapes excl (rt.headD ⟨0,0⟩) (rt.getLastD ⟨0,0⟩) rt tolShrink then
+          fails := ⟨0, .diverge "internal: prefiltered search and proven checker disagree"⟩ :: fails
+        else
+          let cls := hitClass shapes i a b
+          -- does an obstacle-free path exist at all?  (w.r.t. the routing polygons)
+          let exclR := containing rpolys cn.src ++ containing rpolys cn.dst
+          match findPath rpolysBB exclR cn.src cn.dst with
+          | some path =>
+            -- certify the exhibited path with the proven checker (exact, tolerance 0)
+            if routeValid rpolys exclR cn.src cn.dst path 0 then
+              fails := ⟨classPrio cls, .specfail s!"interior-hit conn {cn.id} {kind} ({ck},{lk}): leg {ptStr a}-{ptStr b} enters shape {i+1} {cls}; an obstacle-free path with {path.length} points exists"⟩ :: fails
+            else
+              fails := ⟨0, .diverge "internal: exhibited path failed certification"⟩ :: fails
+          | none => stats := bumpStats stats "noObstacleFreePath" 1
+  -- ---------------------------------------------------------------- polyline visibility graph (mechanism)
+  let exact := rpolys.all (fun p => p.all fun v => smallDyadic v.x && smallDyadic v.y) &&
+               conns.all (fun cn => smallDyadic cn.src.x && smallDyadic cn.src.y && smallDyadic cn.dst.x && smallDyadic cn.dst.y)
+  let visTol : Rat := if exact then 0 else 1 / 1000000000
+  let mut nVisBad := 0
+  for e in vis do
+    let ex := (if e.c1 then containing rpolys e.p1 else []) ++ (if e.c2 then containing rpolys e.p2 else [])
+    match firstHitBB visTol ex rpolysBB (e.p1, e.p2) with
+    | some i =>
+      nVisBad := nVisBad + 1
+      let cls := hitClass rpolys i e.p1 e.p2
+      if nVisBad ≤ 50 || cls == "class=other" then
+        fails := ⟨10 + classPrio cls, .specfail s!"vis-edge-blocked ({lk}): visibility edge [{e.o1}.{e.v1}]{ptStr e.p1}-[{e.o2}.{e.v2}]{ptStr e.p2} passes through the interior of shape {i+1} {cls}"⟩ :: fails
+    | none => pure ()
+  if nVisBad > 0 then stats := bumpStats stats s!"visEdgesBlocked.{lk}" nVisBad
+  -- orthogonal visibility: obstacles are the shapes' bounding boxes grown by the buffer, so the edges
+  -- are checked against the real shapes
+  for (p, q) in ovis do
+    if !axisParallel p q then
+      fails := ⟨20, .diverge s!"orthogonal visibility edge {ptStr p}-{ptStr q} is not axis-parallel"⟩ :: fails
+    match firstHitBB tolShrink [] shapesBB (p, q) with
+    | some i =>
+      -- edges leaving a connector endpoint that sits inside the bounding box of a non-rectangular
+      -- shape are a consequence of the bounding-box treatment (route-level check covers it): counted only
+      let ex := conns.any fun cn => cn.src == p || cn.src == q || cn.dst == p || cn.dst == q
+      if ex then stats := bumpStats stats "ovisBlockedAtConnEndpoint" 1
+      else fails := ⟨12, .specfail s!"ovis-edge-blocked: orthogonal visibility edge {ptStr p}-{ptStr q} passes through the interior of shape {i+1}"⟩ :: fails
+    | none => pure ()
+  -- ---------------------------------------------------------------- naive visibility = model
+  if allowPoly && !lee && exact then
+    stats := bumpStats stats "naiveModelCompared" 1
+    let mut verts : Array (Nat × Nat × VVert) := #[]
+    let mut si := 0
+    for p in rpolys do
+      let cs := cornersOf si p
+      let mut vn := 0
+      for v in cs do
+        verts := verts.push (si + 1, vn, v)
+        vn := vn + 1
+      si := si + 1
+    let ncorner := verts.size
+    for cn in conns do
+      verts := verts.push (cn.id, 1, connVert rpolys cn.src)
+      verts := verts.push (cn.id, 2, connVert rpolys cn.dst)
+    let key (o v : Nat) : Nat := o * 100000 + v
+    let pairKey (o1 v1 o2 v2 : Nat) : Nat × Nat :=
+      let a := key o1 v1
+      let b := key o2 v2
+      if a ≤ b then (a, b) else (b, a)
+    let visKeys := (vis.map fun e => pairKey e.o1 e.v1 e.o2 e.v2).toArray.qsort (fun a b => a.1 < b.1 || (a.1 == b.1 && a.2 < b.2))
+    let has (k : Nat × Nat) : Bool := (visKeys.binSearch k (fun a b => a.1 < b.1 || (a.1 == b.1 && a.2 < b.2))).isSome
+    let mut modelCount := 0
+    let mut ndiv := 0
+    for i in [0:verts.size] do
+      for j in [i+1:verts.size] do
+        let (oi, vi, a) := verts[i]!
+        let (oj, vj, b) := verts[j]!
+        -- connector endpoints only see corners and their own partner
+        if i ≥ ncorner && j ≥ ncorner && oi != oj then continue
+        let m := visible ignoreRegions rpolys a b
+        if m then modelCount := modelCount + 1
+        if m != has (pairKey oi vi oj vj) then
+          ndiv := ndiv + 1
+          if ndiv ≤ 3 then
+            fails := ⟨30, .diverge s!"naive visibility: edge [{oi}.{vi}]{ptStr a.pt}-[{oj}.{vj}]{ptStr b.pt} model={m} implementation={!m}"⟩ :: fails
+    if ndiv == 0 && modelCount != vis.length then
+      fails := ⟨31, .diverge s!"naive visibility: implementation has {vis.length} edges, model {modelCount} (edge outside the candidate pairs)"⟩ :: fails
+    stats := bumpStats stats "naiveModelEdges" modelCount
+  match worst fails with
+  | some f => return { verdict := f.verdict, nontrivial := nontrivial, stats := bumpStats stats "failuresInCase" fails.length }
+  | none => return { verdict := .ok, nontrivial := nontrivial, stats := stats }
+
+def run (_args : List String) : IO UInt32 := runCases run1
 
 end Driver.C03
